@@ -334,7 +334,7 @@ Theorem peer_never_replaces : forall fx (s : cst) (o : op) s' outs oc tid,
   fix_n1 fx = true -> is_peer o = true ->
   step gadd fx s o = (s', outs, oc) ->
   lookup (c_store s') tid <> lookup (c_store s) tid ->
-  tree_state s tid <> Present /  ((forall ro, o <> PRoster ro) -> tree_state s tid = Requested).
+  tree_state s tid <> Present /\ ((forall ro, o <> PRoster ro) -> tree_state s tid = Requested).
 Proof.
   intros fx s o s' outs oc tid Hn Hp Hst Hch.
   assert (Hreqp : forall k, tree_state s k = Requested -> tree_state s k <> Present) by (intros k E; rewrite E; discriminate).
@@ -373,16 +373,12 @@ Proof.
         apply Nat.eqb_eq in E. subst k.
         apply make_tree_ok_inv in Hmk as (ro' & c & rest & n & _ & _ & _ & _ & ->). cbn in *.
         specialize (Hnp Hn). intros Hpres.
-        destruct (Nat.eq_dec 0 0) as [_|]; [|congruence].
-        assert (Hsame : lookup (c_store s1) (tm_tid m) = lookup (c_store s) (tm_tid m) \/
-                        lookup (c_store s1) (tm_tid m) <> lookup (c_store s) (tm_tid m)).
-        { destruct (lookup (c_store s1) (tm_tid m)) as [[a|]|], (lookup (c_store s) (tm_tid m)) as [[b|]|] eqn:Eb;
-            try (right; discriminate); try (left; reflexivity).
-          unfold tree_state in Hnp. unfold tree_state in Hpres. rewrite Eb in Hpres.
-          exfalso. apply Hnp. reflexivity. }
-        destruct Hsame as [Hs|Hd].
-        + apply Hnp. unfold tree_state in *. rewrite Hs. exact Hpres.
-        + exact (H1 _ Hd Hpres). }
+        unfold tree_state in Hpres.
+        destruct (lookup (c_store s) (tm_tid m)) as [[b|]|] eqn:Eb; try discriminate.
+        destruct (lookup (c_store s1) (tm_tid m)) as [[a|]|] eqn:Ea.
+        + apply Hnp. unfold tree_state. rewrite Ea. reflexivity.
+        + apply (H1 (tm_tid m)); [rewrite Ea, Eb; discriminate|]. unfold tree_state. rewrite Eb. reflexivity.
+        + apply (H1 (tm_tid m)); [rewrite Ea, Eb; discriminate|]. unfold tree_state. rewrite Eb. reflexivity. }
     destruct (make_pending gadd fx s0 sl ro) as [s1 oc1]. cbn in HP.
     destruct oc1; inversion Hst; subst; apply HP; exact Hch.
 Qed.
